@@ -34,7 +34,26 @@ func (e ev) String() string {
 	return "?"
 }
 
+// Clock selects the timestamps the harness puts on the entries it writes (the buffer orders by WRITE order,
+// whatever the entries' timestamps say): 0 none (zero time), 1 strictly increasing, 2 a coarse clock (equal
+// in groups of 5) with a step backwards every 7th entry.
+func stamp(clock, seq int) time.Time {
+	base := time.Unix(1700000000, 0)
+	switch clock {
+	case 1:
+		return base.Add(time.Duration(seq) * time.Millisecond)
+	case 2:
+		t := base.Add(time.Duration(seq/5) * time.Second)
+		if seq%7 == 3 {
+			t = t.Add(-3 * time.Second)
+		}
+		return t
+	}
+	return time.Time{}
+}
+
 type World struct {
+	Clock int
 	ML    *logging.MemLogger
 	Cores []zapcore.Core
 	Seq   int
@@ -48,7 +67,7 @@ func NewWorld() *World {
 
 func (w *World) Write(core int) {
 	w.Seq++
-	_ = w.Cores[core].Write(zapcore.Entry{Level: zapcore.InfoLevel, Message: strconv.Itoa(w.Seq)}, nil)
+	_ = w.Cores[core].Write(zapcore.Entry{Level: zapcore.InfoLevel, Message: strconv.Itoa(w.Seq), Time: stamp(w.Clock, w.Seq)}, nil)
 	w.All = append(w.All, w.Seq)
 }
 
@@ -192,8 +211,12 @@ func SeqPart(rep *rt.Report, tier rt.Tier) *seq.Stats {
 		},
 		Run: func(h []uint8) seq.Outcome {
 			// each history twice: the buffer is read only at the end / after every event (a reader polls it)
-			for _, readAlways := range []bool{false, true} {
+			for mode := 0; mode < 4; mode++ {
+				// read only at the end / after every event, with zero timestamps; then read at the end with
+				// increasing and with coarse, partly inverted timestamps (order is write order, not time order)
+				readAlways := mode == 1
 				w := NewWorld()
+				w.Clock = []int{0, 0, 1, 2}[mode]
 				for i, x := range h {
 					if f := w.Apply(evs[x]); f != "" {
 						return classify(h, evs, f)
